@@ -58,8 +58,9 @@ type PX struct {
 }
 
 type Badge struct {
-	Id    string
-	Owner string
+	Id       string
+	Owner    string
+	IsSystem bool // persisted on create only, enforced by the system-entity constraint like on people
 }
 
 func (e *Badge) GetId() string         { return e.Id }
@@ -159,9 +160,13 @@ type badgeStrategy struct{}
 func (badgeStrategy) NewEntity() *Badge { return &Badge{} }
 func (badgeStrategy) FillEntity(e *Badge, b *boltz.TypedBucket) {
 	e.Owner = b.GetStringWithDefault("owner", "")
+	e.IsSystem = b.GetBoolWithDefault(boltz.FieldIsSystemEntity, false)
 }
 func (badgeStrategy) PersistEntity(e *Badge, ctx *boltz.PersistContext) {
 	ctx.SetString("owner", e.Owner)
+	if ctx.IsCreate && e.IsSystem {
+		ctx.Bucket.SetBool(boltz.FieldIsSystemEntity, true, nil)
+	}
 }
 
 type noteStrategy struct{}
@@ -367,6 +372,8 @@ func NewStores() *Stores {
 	b := s.Badges
 	b.AddIdSymbol("id", ast.NodeTypeString)
 	b.AddFkIndexCascadeDelete(b.AddFkSymbol("owner", p), p.symBadges)
+	b.AddSymbol(boltz.FieldIsSystemEntity, ast.NodeTypeBool)
+	b.AddConstraint(boltz.NewSystemEntityEnforcementConstraint(b)) // a system entity that can be reached by a cascade
 
 	n := s.Notes
 	n.AddIdSymbol("id", ast.NodeTypeString)
